@@ -860,7 +860,7 @@ func main() {
 		res.Report(hx.Finding{Kind: "mismatch", Property: "C14", What: "cannot start drv_lockskel: " + err.Error(),
 			Name: "driver lockskel", Sig: "driver-lockskel"})
 	} else {
-		for _, q := range []string{"stats", "files", "skipped", "declared", "inlined", "needsnocaller", "eitherlock"} {
+		for _, q := range []string{"stats", "files", "skipped", "declared", "inlined", "needsnocaller", "eitherlock", "guardexempt"} {
 			a, err := drv.Ask(q)
 			if err != nil {
 				res.Report(hx.Finding{Kind: "mismatch", Property: "C14", What: err.Error(), Name: "driver lockskel", Sig: "driver-lockskel"})
